@@ -1506,7 +1506,12 @@ KINDS = ["haar", "haar", "haar", "perm", "permphase", "blockdiag", "sparse", "sp
 
 def gen_spec(rng, max_n, i):
     r = rng.random()
-    n = rng.choice([2, 2, 3, 3, 3, 4, 4, 5] if max_n <= 5 else [2, 3, 3, 4, 4, 5, 5, 6])
+    # thorough tier: the model's exact replay of a returned circuit (`fold`, one sequential Lean process, exact rationals
+    # that grow with every cell) costs about 6x more per extra mode (n = 4: ~1 s, 5: ~7 s, 6: ~35 s on a Haar matrix), and
+    # it - not the decompositions, which run in 14 processes - is what the wall time of the tier consists of: n = 6 is
+    # kept as 5% of the cases, n = 5 as 30% (was 1/8 and 1/4 of 1500 cases: 33 min)
+    n = rng.choice([2, 2, 3, 3, 3, 4, 4, 5] if max_n <= 5 else
+                   [2, 2, 3, 3, 3, 3, 4, 4, 4, 4, 4, 4, 4, 5, 5, 5, 5, 5, 5, 6])
     n = min(n, max_n)
     spec = {"n": n, "kind": rng.choice(KINDS), "seed": rng.randrange(1, 2 ** 30)}
     b = rng.random()
@@ -1569,7 +1574,8 @@ def gen_exact_spec(rng, max_n):
     """a request of the run-level existence stream: one of the two universal blocks, any matrix kind, the closed-form
     solver plugged in (`exact`), the default precision or one at rounding level (1e-12: nothing but exact zeros and
     rounding dust is skipped, the returned matrix must be the requested one to 1e-11)"""
-    spec = {"n": rng.choice([2, 3, 3, 4, 4, 5, 5, 6][:8 if max_n >= 6 else 6]), "kind": rng.choice(KINDS + ["dust7"]),
+    spec = {"n": rng.choice([2, 3, 3, 4, 4, 5] if max_n <= 5 else [2, 3, 3, 3, 4, 4, 4, 4, 4, 5, 5, 5, 5, 5, 5, 6]),
+            "kind": rng.choice(KINDS + ["dust7"]),
             "seed": rng.randrange(1, 2 ** 30), "block": rng.choice(UNIVERSAL), "exact": True}
     spec["n"] = min(spec["n"], max_n)
     if spec["kind"] == "dust7":
@@ -2090,7 +2096,7 @@ def run(chk: core.Check):
                              "unsolvable-cell:bs", "unsolvable-cell:mzi_first"]
     chk.lean = core.LeanDriver("C12")
     rng = chk.rng
-    n_cases = chk.pick(200, 1500)
+    n_cases = chk.pick(200, 400)
     max_n = chk.pick(5, 6)
     specs = load_corpus()
     ncorpus = len(specs)
@@ -2106,16 +2112,16 @@ def run(chk: core.Check):
         by_block = {}
         order = sorted(range(len(specs)), key=lambda i: -expected_cost(specs[i]))
         pending = {i: pool.apply_async(observe, (specs[i],)) for i in order}
-        solve_cases = [gen_solve_case(rng) for _ in range(chk.pick(150, 1500))]
+        solve_cases = [gen_solve_case(rng) for _ in range(chk.pick(150, 600))]
         nchunk = 10
         solve_pending = [pool.apply_async(observe_solve, (solve_cases[c::nchunk],)) for c in range(nchunk)]
-        block_cases = [gen_block_case(rng) for _ in range(chk.pick(120, 1200))]
+        block_cases = [gen_block_case(rng) for _ in range(chk.pick(120, 480))]
         block_pending = [pool.apply_async(observe_blocks, (block_cases[c::4],)) for c in range(4)]
-        glue_cases = [gen_glue_case(rng) for _ in range(chk.pick(120, 800))]
+        glue_cases = [gen_glue_case(rng) for _ in range(chk.pick(120, 400))]
         glue_pending = [pool.apply_async(observe_glue, (g,)) for g in glue_cases]
-        exact_specs = [gen_exact_spec(rng, max_n) for _ in range(chk.pick(40, 160))]
+        exact_specs = [gen_exact_spec(rng, max_n) for _ in range(chk.pick(40, 100))]
         exact_pending = [pool.apply_async(observe, (e,)) for e in exact_specs]
-        other_cases = [gen_other_block_case(rng) for _ in range(chk.pick(60, 300))]
+        other_cases = [gen_other_block_case(rng) for _ in range(chk.pick(60, 240))]
         other_pending = [pool.apply_async(observe_blocks, (other_cases[c::4],)) for c in range(4)]
         for i in range(len(specs)):
             obs = pending.pop(i).get()
